@@ -38,6 +38,13 @@ impl<K, V> BTreeMap<K, V> {
     { unimplemented!() }
 
     #[verifier::external_body]
+    pub fn get_mut(&mut self, key: &K) -> (r: Option<&mut V>)
+        ensures
+            !old(self)@.contains_key(*key) ==> r.is_none() && final(self)@ == old(self)@,
+            old(self)@.contains_key(*key) ==> (r matches Some(v) && *v == old(self)@[*key] && final(self)@ == old(self)@.insert(*key, *final(v))),
+    { unimplemented!() }
+
+    #[verifier::external_body]
     pub fn insert(&mut self, key: K, value: V) -> (r: Option<V>)
         ensures final(self)@ == old(self)@.insert(key, value),
             r == (if old(self)@.contains_key(key) { Some(old(self)@[key]) } else { None })
